@@ -1258,6 +1258,15 @@ func (c *fsClient) checkGate(st *State, fr *Frame, site ssa.CallInstruction, tmp
 		c.violate(st, "GATE-IDX", role+" / table listed only if min >= next", site.Pos(),
 			fmt.Sprintf("a table is renamed into place on a path that did not establish writer.min >= %s (the update index following everything this transaction builds on)", floor))
 	}
+	// the next transaction's floor is max+1: that only moves forward if the table's
+	// own range is not inverted (a writer callback may declare any limits)
+	max := mk("init", "", nil, mk("field", "Writer.maxUpdateIndex", nil, w))
+	if st.truth(tLt(max, min)) == 0 {
+		c.okay("GATE-IDX", role+" / table listed only if its range is not inverted", "max update index compared with the minimum")
+	} else {
+		c.violate(st, "GATE-IDX", role+" / table listed only if its range is not inverted", site.Pos(),
+			"a table is renamed into place on a path that did not establish writer.max >= writer.min: with inverted limits the next update index (max+1) lies below this table's minimum, so later tables overlap or precede it")
+	}
 	g.setFlag("floor", mk("bin", "+", nil, mk("init", "", nil, mk("field", "Writer.maxUpdateIndex", nil, w)), tConst("1", nil)))
 }
 
